@@ -421,7 +421,7 @@ def r10_8(ctx):
         ctx.verdict(ok, "R10.8", root_fn(F, c), "counter-counts-every-item:%s" % incs[0][1].lstrip("*&").split(".")[-1], cb.line_at(incs[0][0]),
                     "the source-index counter `%s` is incremented on every path of the per-item closure" % incs[0][1],
                     "the per-item closure `%s` can return without incrementing the source-index counter `%s` (e.g. an early return for rejected items): every kept item after a rejected one is remembered at too small a source index" % (c.path, incs[0][1]))
-    ctx.floor("R10.8", n, 3)
+    ctx.floor("R10.8", n, 1)   # the per-item closures may be merged into one shared function
 
 
 def bypass_guard(ctx, h, b, site, v):
